@@ -224,6 +224,24 @@ Example C18_history_nonvacuous :
 Proof. exact GraphProofs.history_nonvacuous. Qed.
 Print Assumptions C18_history_nonvacuous.
 
+(** *** 7. Identifiers play no part: any interleaving of identifier operations (4-argument addEquivalence,
+    set / remove mapping and connection identifiers on direct, indirect or unrelated pairs, printing and
+    re-parsing the model) can be deleted from a history without changing a single answer. *)
+Theorem C18_ids_irrelevant : forall n h, Forall (event_below n) h ->
+  run_history n empty_graph [] h = run_history n empty_graph [] (strip_ids h).
+Proof. exact GraphProofs.ids_irrelevant. Qed.
+Print Assumptions C18_ids_irrelevant.
+
+Example C18_ids_nonvacuous :
+  run_history 3 empty_graph [] ex_id_history =
+    [Some true; Some false; Some false; Some false; Some false; Some false] /\
+  Forall (event_below 3) ex_id_history /\
+  strip_ids ex_id_history =
+    [Edit (AddEq 0 1); Edit (AddEq 1 2); Ask QIndirect 0 2; Edit (RemEq 1 2);
+     Ask QIndirect 0 2; Ask QIndirect 2 0; Ask QCached 0 2; Edit (RemAll 0); Ask QIndirect 0 1; Ask QUtil 1 0].
+Proof. exact GraphProofs.ids_nonvacuous. Qed.
+Print Assumptions C18_ids_nonvacuous.
+
 (** Non-vacuity: chain 0-1-2, 3 isolated, 4 linked then destroyed; too little fuel is [None], not [false]. *)
 Example C18_nonvacuous :
   let g := freeze 5 (build ex_ops) in
